@@ -158,4 +158,29 @@ def fromGeopolygon (p : Rat × Rat) (ps : List (Rat × Rat)) (res : ResArg)
   let (res, anchor) ← alignToAnchor align res anchor
   fromBbox (bboxOfPts p ps) tight shape res anchor tol
 
+/-! ### the `crs="utm"` shortcut of `from_bbox` (`_norm_bbox`, geobox.py:547-556)
+
+`BoundingBox(*bbox, crs="epsg:4326").to_crs(utm)`: the four corners of the lon/lat box are projected
+(no densification) and the bounding box of the images is taken.  The projection is a parameter
+(pyproj is outside the model). -/
+
+/-- corners in the order of `BoundingBox.polygon` / `points` -/
+def BBox.corners (b : BBox) : List (Rat × Rat) :=
+  [(b.left, b.bottom), (b.left, b.top), (b.right, b.top), (b.right, b.bottom)]
+
+/-- `_norm_bbox(bbox, "utm…")` with projection `proj`. -/
+def normBboxUtm (proj : Rat × Rat → Rat × Rat) (b : BBox) : BBox :=
+  bboxOfPts (proj (b.left, b.bottom)) [proj (b.left, b.top), proj (b.right, b.top), proj (b.right, b.bottom)]
+
+/-- `GeoBox.from_bbox(lonlat_tuple, "utm", …)`. -/
+def fromBboxUtm (proj : Rat × Rat → Rat × Rat) (bb : BBox) (tight : Bool) (shape : ShapeArg) (res : ResArg)
+    (anchor : AnchorArg) (tol : Rat) : Res GeoBox :=
+  fromBbox (normBboxUtm proj bb) tight shape res anchor tol
+
+/-- `GeoBox.from_geopolygon(poly, …, crs=other)`: `geopolygon.to_crs(crs)` projects the vertices as
+they are (no densification unless asked), then the same-CRS path.  `proj` is the projection. -/
+def fromGeopolygonCrs (proj : Rat × Rat → Rat × Rat) (p : Rat × Rat) (ps : List (Rat × Rat)) (res : ResArg)
+    (align : Option (Rat × Rat)) (shape : ShapeArg) (tight : Bool) (anchor : AnchorArg) (tol : Rat) : Res GeoBox :=
+  fromGeopolygon (proj p) (ps.map proj) res align shape tight anchor tol
+
 end OdcGeo.C08
